@@ -31,7 +31,30 @@ import (
 
 // AllKinds is the full action alphabet (per user), simplest first.
 var AllKinds = []string{"new", "comment", "title", "status", "label", "editcomment", "twoedits", "commentlast", "setmeta",
-	"idmutate", "idsetmeta", "push", "pull", "remove", "resolveall", "reopen", "stage"}
+	"idmutate", "idsetmeta", "push", "pull", "remove", "resolveall", "reopen", "stage",
+	// identity-history actions (property C09 through the cache): a mutation of the own identity left
+	// uncommitted, its commit, and a committed mutation of the OTHER user's identity (the same identity
+	// edited on two replicas)
+	"idstage", "idcommit", "idmutateother"}
+
+// LabelKinds are the label actions of the dedicated label run (not part of the full alphabet):
+// ladd-<l> / lrm-<l> add / remove one label of {alpha, beta, gamma} on the first bug, laddlast-<l> /
+// lrmlast-<l> one of {alpha, beta} on the last bug, so that bugs carry several labels and share them.
+var LabelKinds = []string{"ladd-alpha", "ladd-beta", "ladd-gamma", "lrm-alpha", "lrm-beta", "lrm-gamma",
+	"laddlast-alpha", "laddlast-beta", "lrmlast-alpha", "lrmlast-beta"}
+
+// labelKind decodes a label action kind.
+func labelKind(k string) (label string, add, onLast, ok bool) {
+	for _, p := range []struct {
+		prefix      string
+		add, onLast bool
+	}{{"laddlast-", true, true}, {"lrmlast-", false, true}, {"ladd-", true, false}, {"lrm-", false, false}} {
+		if strings.HasPrefix(k, p.prefix) {
+			return strings.TrimPrefix(k, p.prefix), p.add, p.onLast, true
+		}
+	}
+	return "", false, false, false
+}
 
 // Params selects the alphabet and the acting users.
 type Params struct {
@@ -114,7 +137,7 @@ func New(params string) (xstate.Model, error) {
 		for _, k := range strings.Split(ks, ",") {
 			want[strings.TrimSpace(k)] = true
 		}
-		for _, k := range AllKinds {
+		for _, k := range append(append([]string{}, AllKinds...), LabelKinds...) {
 			if want[k] {
 				m.kinds[u] = append(m.kinds[u], k)
 			}
@@ -348,6 +371,29 @@ func (m *model) Actions() []string {
 					continue
 				}
 			}
+			if l, add, onLast, ok := labelKind(k); ok {
+				id := first
+				if onLast {
+					id = last
+				}
+				if id == "" || (onLast && last == first) {
+					continue
+				}
+				// read from the excerpt: resolving here would change what the cache has loaded
+				ex, err := m.caches[x].Bugs().ResolveExcerpt(id)
+				if err != nil {
+					continue
+				}
+				has := false
+				for _, y := range ex.Labels {
+					if string(y) == l {
+						has = true
+					}
+				}
+				if has == add {
+					continue
+				}
+			}
 			out = append(out, k+"("+x+")")
 		}
 	}
@@ -392,7 +438,11 @@ func (m *model) Apply(a string) (outcome string, viol []xstate.Violation, err er
 	m.lastPull = nil
 	m.views = nil
 	vctl.SetActor(x)
+	chainsBefore := m.identityChains(x)
 	hung, panicked := m.guarded(func() { outcome, viol, err = m.apply(k, x) })
+	if !hung && panicked == "" && err == nil && k != "remove" {
+		viol = append(viol, m.appendOnly(x, k, chainsBefore)...)
+	}
 	if hung {
 		m.hung = a
 		return "hang", []xstate.Violation{{Oracle: "c11.serves", Sig: "hang/" + k,
@@ -454,6 +504,31 @@ func (m *model) apply(k, x string) (string, []xstate.Violation, error) {
 	c := m.caches[x]
 	first, last := m.targets(x)
 	n := m.nEdit[x]
+	if l, add, onLast, ok := labelKind(k); ok {
+		m.nEdit[x]++
+		id := first
+		if onLast {
+			id = last
+		}
+		m.note(x, fmt.Sprintf("%s@%d", k, m.idx(id)))
+		b, err := c.Bugs().Resolve(id)
+		if err != nil {
+			return "resolve-" + errTag(err), nil, nil
+		}
+		var op *bug.LabelChangeOperation
+		if add {
+			_, op, err = b.ChangeLabels([]string{l}, nil)
+		} else {
+			_, op, err = b.ChangeLabels(nil, []string{l})
+		}
+		if err != nil {
+			return "edit-" + errTag(err), nil, nil
+		}
+		if err := b.Commit(); err != nil {
+			return "commit-" + errTag(err), nil, nil
+		}
+		return "ok", m.ackCheck(x, k, id, []entity.Id{op.Id()}), nil
+	}
 	switch k {
 	case "new":
 		m.nEdit[x]++
@@ -619,6 +694,47 @@ func (m *model) apply(k, x string) (string, []xstate.Violation, error) {
 			return "mutate-" + errTag(err), nil, nil
 		}
 		if err := u.Commit(); err != nil {
+			return "commit-" + errTag(err), nil, nil
+		}
+		return "ok", nil, nil
+	case "idstage":
+		// the own identity is mutated in memory and NOT committed
+		m.nEdit[x]++
+		m.note(x, "idstage")
+		u, err := c.GetUserIdentity()
+		if err != nil {
+			return "user-" + errTag(err), nil, nil
+		}
+		if err := u.Mutate(m.w.Repos[x], func(mu *identity.Mutator) { mu.Name = fmt.Sprintf("pending %s%d", x, n) }); err != nil {
+			return "mutate-" + errTag(err), nil, nil
+		}
+		return "ok", nil, nil
+	case "idcommit":
+		m.note(x, "idcommit")
+		u, err := c.GetUserIdentity()
+		if err != nil {
+			return "user-" + errTag(err), nil, nil
+		}
+		if err := u.CommitAsNeeded(); err != nil {
+			return "commit-" + errTag(err), nil, nil
+		}
+		return "ok", nil, nil
+	case "idmutateother":
+		// the other user's identity, which this replica has too, gets a new committed version here
+		m.nEdit[x]++
+		m.note(x, "idmutateother")
+		other := "A"
+		if x == "A" {
+			other = "B"
+		}
+		o, err := c.Identities().Resolve(m.w.Users[other])
+		if err != nil {
+			return "resolve-" + errTag(err), nil, nil
+		}
+		if err := o.Mutate(m.w.Repos[x], func(mu *identity.Mutator) { mu.Name = fmt.Sprintf("renamed by %s%d", x, n) }); err != nil {
+			return "mutate-" + errTag(err), nil, nil
+		}
+		if err := o.Commit(); err != nil {
 			return "commit-" + errTag(err), nil, nil
 		}
 		return "ok", nil, nil
@@ -817,4 +933,64 @@ func (m *model) Key() (string, error) {
 	}
 	extra = append(extra, "order "+strings.Join(ord, ","))
 	return m.w.Key(extra...)
+}
+
+// ---- identity histories only grow (property C09, observed through the cache world) ---------------
+
+// identityChains returns, for every local identity ref of x, the commit chain (head first).
+func (m *model) identityChains(x string) map[string][]string {
+	repo := m.w.Repos[x]
+	out := map[string][]string{}
+	refs, err := repo.ListRefs("refs/identities/")
+	if err != nil {
+		return out
+	}
+	for _, ref := range refs {
+		h, err := repo.ResolveRef(ref)
+		if err != nil {
+			continue
+		}
+		var chain []string
+		for n := 0; n < 200; n++ {
+			chain = append(chain, string(h))
+			c, err := repo.ReadCommit(h)
+			if err != nil || len(c.Parents) == 0 {
+				break
+			}
+			h = c.Parents[0]
+		}
+		out[ref] = chain
+	}
+	return out
+}
+
+// appendOnly: whatever x just did, the stored history of every identity x had before is a suffix of
+// the history it has now (versions are only ever appended).
+func (m *model) appendOnly(x, kind string, before map[string][]string) []xstate.Violation {
+	after := m.identityChains(x)
+	var viol []xstate.Violation
+	for ref, b := range before {
+		a, ok := after[ref]
+		if !ok {
+			viol = append(viol, xstate.Violation{Oracle: "c09.append-only", Sig: "identity-ref-disappeared/after-" + kind,
+				Detail: fmt.Sprintf("user %s: %s existed before the action and is gone", x, ref)})
+			continue
+		}
+		// b (head first) must be a suffix of a
+		okSuffix := len(a) >= len(b)
+		if okSuffix {
+			off := len(a) - len(b)
+			for i := range b {
+				if a[off+i] != b[i] {
+					okSuffix = false
+					break
+				}
+			}
+		}
+		if !okSuffix {
+			viol = append(viol, xstate.Violation{Oracle: "c09.append-only", Sig: "identity-history-rewritten/after-" + kind,
+				Detail: fmt.Sprintf("user %s: the stored history of %s was %d commits (head %.8s) and is now %d commits (head %.8s) which does not contain it: versions were dropped instead of appended to", x, ref, len(b), b[0], len(a), a[0])})
+		}
+	}
+	return viol
 }
